@@ -229,10 +229,10 @@ Qed.
 (* THE REPAIR: atoms_count + (query atoms - 1) * (largest neighbour list) cells are always enough - for ANY pair of buffers,
    any scope, any fuel (no well-formedness needed): the stack holds at most atoms_count entries of depth 0 and, for every
    depth 1..q-1, the remains of ONE batch of candidates, i.e. at most one neighbour list *)
-Theorem stack_bound_sufficient qu mo scope fuel :
-  (mask_occupancy qu mo scope fuel <= alloc_sufficient qu mo)%nat.
+Theorem stack_bound_tight qu mo scope fuel :
+  (mask_occupancy qu mo scope fuel <= alloc_tight qu mo)%nat.
 Proof.
-  unfold mask_occupancy, alloc_sufficient.
+  unfold mask_occupancy, alloc_tight.
   set (N := List.length (mo_atoms mo)). set (L := Nat.pred (List.length (qu_atoms qu))). set (D := max_degree mo).
   set (st0 := init_stack (zlen (mo_atoms mo)) (mask_first qu mo scope)).
   assert (Hlen : (List.length st0 <= N)%nat).
@@ -298,18 +298,18 @@ Definition sf6s_rm : list ratom :=
 (* the allocation of the .pyx (2 * atoms_count cells) is exceeded on inputs inside every hypothesis of the equivalence
    theorems: K5 of carbons on itself needs 11 cells of 10, the SF6 query on SF6 16 of 14 *)
 Theorem stack_bound_2n_refuted :
-  hyps_ok k5_rq k5_rm = true /\ occ_of k5_rq k5_rm = 11%nat /\ alloc_pyx (enc_mol k5_rm) = 10%nat /\
-  hyps_ok sf6_rq sf6_rm = true /\ occ_of sf6_rq sf6_rm = 16%nat /\ alloc_pyx (enc_mol sf6_rm) = 14%nat.
+  hyps_ok k5_rq k5_rm = true /\ occ_of k5_rq k5_rm = 11%nat /\ alloc_2n (enc_mol k5_rm) = 10%nat /\
+  hyps_ok sf6_rq sf6_rm = true /\ occ_of sf6_rq sf6_rm = 16%nat /\ alloc_2n (enc_mol sf6_rm) = 14%nat.
 Proof. vm_compute. repeat split; reflexivity. Qed.
 
 (* the repair suggested first (atoms_count + number of bond records) is NOT sufficient: every front of a star query re-scans
    the neighbour list of the same centre *)
 Theorem stack_bound_atoms_plus_bonds_refuted :
   hyps_ok star_rq sf6s_rm = true /\ occ_of star_rq sf6s_rm = 22%nat /\ alloc_atoms_plus_bonds (enc_mol sf6s_rm) = 19%nat /\
-  alloc_sufficient (enc_query star_rq) (enc_mol sf6s_rm) = 43%nat.
+  alloc_tight (enc_query star_rq) (enc_mol sf6s_rm) = 43%nat.
 Proof. vm_compute. repeat split; reflexivity. Qed.
 
-(* ---- the one-line repair: atoms_count * query atoms cells, for the buffers of a well-formed molecule ---- *)
+(* ---- the allocation of the code since 25e27ca: atoms_count * query atoms cells ---- *)
 Lemma from_to_widths {A} (f : A -> Z) l s : map (fun ft => snd ft - fst ft) (from_to f l s) = map f l.
 Proof. revert s. induction l as [|a l IH]; intros s; cbn [from_to map fst snd]; [reflexivity|]. rewrite IH. f_equal. lia. Qed.
 
@@ -325,7 +325,7 @@ Proof.
   apply Nat.max_lub; [apply H; left; reflexivity | apply IH; intros y Hy; apply H; right; exact Hy].
 Qed.
 
-Lemma max_degree_enc_mol rm : wf_mol rm -> (max_degree (enc_mol rm) <= List.length rm)%nat.
+Lemma max_degree_enc_mol rm : adj_ok rm -> (max_degree (enc_mol rm) <= List.length rm)%nat.
 Proof.
   intros Hm. unfold max_degree, enc_mol. cbn [mo_atoms]. rewrite map_map.
   set (ft := from_to (fun a => zlen (ra_nbrs a)) rm 0). set (bits := map (fun a => enc_atom (ra_atom a)) rm).
@@ -338,19 +338,35 @@ Proof.
     - rewrite map_snd_combine by (unfold ft, bits; rewrite combine_length, from_to_length, map_length, Nat.min_id; reflexivity).
       unfold ft. rewrite <- (map_map (fun ft0 : Z * Z => snd ft0 - fst ft0) Z.to_nat), from_to_widths, map_map. reflexivity. }
   rewrite E. apply fold_max_le. intros a Ha.
-  unfold wf_mol in Hm. rewrite Forall_forall in Hm. destruct (Hm a Ha) as [_ [Hnd Hr]].
+  unfold adj_ok in Hm. rewrite Forall_forall in Hm. destruct (Hm a Ha) as [Hnd Hr].
   unfold zlen. rewrite Nat2Z.id. rewrite <- (map_length fst).
   replace (List.length rm) with (List.length (zrange 0 (zlen rm))) by (unfold zrange; rewrite zrange_from_length; unfold zlen; lia).
   apply NoDup_incl_length; [exact Hnd|]. intros x Hx. apply in_map_iff in Hx. destruct Hx as [e [<- He]].
   rewrite Forall_forall in Hr. apply zrange_In. apply (Hr e He).
 Qed.
 
-Theorem stack_bound_simple rq rm scope fuel : rq <> [] -> wf_mol rm ->
-  (mask_occupancy (enc_query rq) (enc_mol rm) scope fuel <= alloc_simple (enc_query rq) (enc_mol rm))%nat.
+Theorem stack_bound_sufficient rq rm scope fuel : rq <> [] -> adj_ok rm ->
+  (mask_occupancy (enc_query rq) (enc_mol rm) scope fuel <= alloc_pyx (enc_query rq) (enc_mol rm))%nat.
 Proof.
-  intros Hne Hm. etransitivity; [apply stack_bound_sufficient|]. unfold alloc_sufficient, alloc_simple.
+  intros Hne Hm. etransitivity; [apply stack_bound_tight|]. unfold alloc_tight, alloc_pyx.
   pose proof (max_degree_enc_mol rm Hm) as Hd. rewrite enc_query_natoms.
   assert (Hn : List.length (mo_atoms (enc_mol rm)) = List.length rm).
   { pose proof (enc_mol_natoms rm) as H. unfold zlen in H. lia. }
   rewrite Hn. destruct rq as [|e rq]; [congruence|]. cbn [List.length Nat.pred]. nia.
+Qed.
+
+Lemma wf_mol_adj_ok rm : wf_mol rm -> adj_ok rm.
+Proof.
+  unfold wf_mol, adj_ok. rewrite !Forall_forall. intros H a Ha. destruct (H a Ha) as [_ [H1 H2]]. split; [exact H1|].
+  rewrite Forall_forall in H2. apply Forall_forall. intros e He. apply (H2 e He).
+Qed.
+
+(* the inputs that overflowed 2 * atoms_count cells fit the new allocation (and the theorem above applies to them) *)
+Theorem stack_bound_examples :
+  adj_ok k5_rm /\ occ_of k5_rq k5_rm = 11%nat /\ alloc_pyx (enc_query k5_rq) (enc_mol k5_rm) = 25%nat /\
+  adj_ok sf6s_rm /\ occ_of star_rq sf6s_rm = 22%nat /\ alloc_pyx (enc_query star_rq) (enc_mol sf6s_rm) = 49%nat /\
+  alloc_tight (enc_query star_rq) (enc_mol sf6s_rm) = 43%nat.
+Proof.
+  split; [apply wf_mol_adj_ok, wf_molb_sound; vm_compute; reflexivity|]. split; [vm_compute; reflexivity|]. split; [vm_compute; reflexivity|].
+  split; [apply wf_mol_adj_ok, wf_molb_sound; vm_compute; reflexivity|]. repeat split; vm_compute; reflexivity.
 Qed.
